@@ -228,6 +228,10 @@ def c09(ctx):
         # the count reported in <resume/>, across connections of one client (Negotiation.tla)
         base = dict(f1=S("notls"), tlsr=S("proceed"), certs=S("valid"), f2=S("mech"), authr=S("success"), bindr=S("result"), sessr=S("result"))
         neg_check(ctx, [dict(configs="CfgC11", conns=3 if q else 4, f3=S("bm", "b"), resr=S("resumed", "failed"), enr=S("enabled"), **base)])
+        # responses to pending SendIQ requests are received stanzas too (they take a different path in the receive loop)
+        iqs = [{"stress": k, "shape": sh, "ack": True} for k in range(1, 8) for sh in range(4)]
+        out, nev, _ = vlib.run_driver(ctx, "c07", scen=iqs, timeout=900)
+        ctx.verdicts += vlib.tlc_trace(ctx, "TraceIQRoutes", "Trace_IQRoutes.cfg", out, nev, timeout=600)
 
 
 @check("C10")
